@@ -216,13 +216,8 @@ def coq_struct(case, raw):
 
 # ------------------------------------------------------------------ findings / judge
 def finding_key(case, coq):
-    k = case["kind"]
-    if k == "ladder" and case["plat"] == "windows" and case["meth"] == "ppid":
-        return "windows-ppid-not-wrapped"
-    if k == "layout" and case["meth"] == "gids" and case["plat"] in ("macos", "sunos", "aix"):
-        return "gids-returns-puids"
-    if k == "dep" and case["plat"] == "sunos" and case["meth"] == "terminal":
-        return "sunos-terminal-ignores-ttynr"
+    # no open finding class: windows-ppid-not-wrapped (a2d103c), gids-returns-puids (1275da7, 5229996) and
+    # sunos-terminal-ignores-ttynr (5229996) are fixed; their old failing inputs are replayed from corpus/C20
     return None
 
 
@@ -388,11 +383,12 @@ MANIFEST = {
     "text": "Theorems (Coq, closed under the global context). About the hand-written model of the five wrap_exceptions ladders and the "
             "per-method handlers: for every platform, method name, failing native call, error, process state and pid the outcome is the one "
             "the documented contract demands (NoSuchProcess / ZombieProcess / AccessDenied with pid and cached name, other errors unchanged, "
-            "PID-0 rule on BSD and Solaris, the commented fall-backs) -- with the undecorated Windows ppid() excluded and refuted. About the "
+            "PID-0 rule on BSD and Solaris, the commented fall-backs); a legacy variant of the model (Windows ppid() undecorated, before fix "
+            "a2d103c) is refuted. About the "
             "tables regenerated from the code on every run (finite forallb facts lifted with forallb_forall): every probed outcome of every "
             "(platform, method, call, error, state, pid) meets the contract and equals the model; the four slot maps are bijections onto "
             "0..n-1 in the order of the native records; every documented method fills its documented tuple from the matching native slots "
-            "(gids() type on macOS/SunOS/AIX and Solaris terminal() excluded and refuted); documented names and Process methods are exposed "
+            "(no exclusion: the gids() type and Solaris terminal() defects are fixed in /repo); documented names and Process methods are exposed "
             "per platform; net_if_addrs() rows equal the model, whose Windows IPv4 broadcast is addr | ~mask for every address and prefix "
             "and whose MAC padding yields six octets for every 1..6-octet MAC. The same stub layer drives the real modules over the whole "
             "ladder space on every run, and random records / NIC rows, comparing implementation, model and contract case by case.",
